@@ -101,10 +101,10 @@ OPS = {
     "t4t": ["ndef", "write", "present", "format-wipe", "dump", "raw:apdu"],
     "ntag": ["ndef", "write", "present", "format", "protect", "protect-pw",
              "auth", "dump"],
-    "lite": ["ndef", "write", "present", "format", "protect-pw", "auth",
-             "dump"],
-    "lites": ["ndef", "write", "present", "format", "protect-pw", "auth",
-              "dump"],
+    "lite": ["ndef", "write", "present", "format", "protect-pw",
+             "protect-pw-str", "auth", "dump"],
+    "lites": ["ndef", "write", "present", "format", "protect-pw",
+              "protect-pw-str", "auth", "dump"],
 }
 
 FIXTURES = {
@@ -184,9 +184,9 @@ def do_op(tag, op, f):
     if op == "protect":
         return tag.protect()
     if op == "protect-pw":
-        if f.name == "lites":
-            return tag.protect(PW.decode("ascii"))
         return tag.protect(PW)
+    if op == "protect-pw-str":
+        return tag.protect(PW.decode("ascii"))
     if op == "auth":
         return tag.authenticate(PW)
     if op == "dump":
@@ -387,8 +387,9 @@ def _nonidempotent(fixture, op, phase):
     # written afterwards, a repeated write is refused by the tag
     if phase != "rsp":
         return False
-    return (fixture == "lites" and op in ("auth", "protect-pw")) or \
-        (fixture == "lite" and op == "protect-pw")
+    return (fixture == "lites" and op in ("auth", "protect-pw",
+                                          "protect-pw-str")) or \
+        (fixture == "lite" and op in ("protect-pw", "protect-pw-str"))
 
 
 def _c_exempt(fixture, op, err):
